@@ -827,6 +827,122 @@ var jsonOracle = &Oracle{
 	},
 }
 
+// ---- the specification (Json/Grammar.v) against encoding/json ----------------------------------------
+
+func jsonSpecDocs(r *Rng, tier string, onlyValid bool, name string, emit func(Case)) {
+	kA, kN, nRand := 4, 5, 6000
+	if tier == "thorough" {
+		kA, kN, nRand = 5, 6, 150000
+	}
+	out := func(d []byte, note string) {
+		if onlyValid && !stdjson.Valid(d) {
+			return
+		}
+		emit(Case{Fn: name, Args: bytesToArgs(d), Note: fmt.Sprintf("%s %q", note, d)})
+	}
+	allStrings(jsonAlphabet, kA, func(d []byte) { out(d, "exh") })
+	allTokenStrings(jsonTokens, kA+1, func(d []byte) { out(d, "tok") })
+	allStrings([]byte("-01.eE+"), kN, func(d []byte) { out(d, "num") })
+	allStrings([]byte("\"\\au/0\x1f"), 5, func(d []byte) {
+		out(append(append([]byte{'"'}, d...), '"'), "str")
+	})
+	// every byte inside a string, after a backslash, and as a hex digit
+	for c := 0; c < 256; c++ {
+		out([]byte{'"', byte(c), '"'}, "byte")
+		out([]byte{'"', '\\', byte(c), '"'}, "esc")
+		out([]byte{'"', '\\', 'u', '0', byte(c), 'a', 'F', '"'}, "hex")
+		out([]byte{byte(c)}, "byte")
+		out([]byte{'1', byte(c)}, "byte")
+		out([]byte{'[', byte(c), ']'}, "byte")
+	}
+	for _, lit := range []string{"true", "false", "null"} {
+		for cut := 0; cut <= len(lit); cut++ {
+			out([]byte(lit[:cut]), "lit")
+			out([]byte(lit[:cut]+"x"), "lit")
+			out([]byte(" "+lit+lit[:cut]), "lit")
+		}
+	}
+	for n := 0; n < nRand; n++ {
+		d := joinToks(genDoc(r, 1+n%4))
+		note := "doc"
+		switch n % 3 {
+		case 1:
+			d = mutateBytes(r, d)
+			note = "mut"
+		case 2:
+			// structural mutations that stay close to valid: drop or double a comma/colon/bracket
+			if len(d) > 0 {
+				k := r.Intn(len(d))
+				if r.Bool() {
+					d = append(append([]byte{}, d[:k]...), d[k+1:]...)
+				} else {
+					d = append(append(append([]byte{}, d[:k]...), d[k]), d[k:]...)
+				}
+				note = "near"
+			}
+		}
+		if len(d) > 3000 {
+			d = d[:3000]
+		}
+		out(d, note)
+	}
+}
+
+func jsonSpecShrink(c Case) []Case {
+	dv, _ := takeList(c.Args)
+	d := toBytes(dv)
+	var out []Case
+	for i := range d {
+		nd := append(append([]byte{}, d[:i]...), d[i+1:]...)
+		out = append(out, Case{Fn: c.Fn, Args: bytesToArgs(nd), Note: fmt.Sprintf("shrunk %q", nd)})
+	}
+	return out
+}
+
+var jsonValidModel = &Model{
+	Name: "json_valid",
+	Gen:  func(r *Rng, tier string, emit func(Case)) { jsonSpecDocs(r, tier, false, "json_valid", emit) },
+	Impl: func(c Case) []int64 {
+		dv, _ := takeList(c.Args)
+		if stdjson.Valid(toBytes(dv)) {
+			return []int64{1}
+		}
+		return []int64{0}
+	},
+	Shrink: jsonSpecShrink,
+	Class: func(c Case, out []int64) string {
+		if out[0] == 1 {
+			return "valid"
+		}
+		return "invalid"
+	},
+}
+
+var jsonStripModel = &Model{
+	Name: "json_strip",
+	Gen:  func(r *Rng, tier string, emit func(Case)) { jsonSpecDocs(r, tier, true, "json_strip", emit) },
+	Impl: func(c Case) []int64 {
+		dv, _ := takeList(c.Args)
+		var buf bytes.Buffer
+		if err := stdjson.Compact(&buf, toBytes(dv)); err != nil {
+			return []int64{-1}
+		}
+		out := make([]int64, 0, buf.Len())
+		for _, x := range buf.Bytes() {
+			out = append(out, int64(x))
+		}
+		return out
+	},
+	Shrink: jsonSpecShrink,
+	Class: func(c Case, out []int64) string {
+		dv, _ := takeList(c.Args)
+		if len(out) == len(dv) {
+			return "no-ws"
+		}
+		return "ws-removed"
+	},
+}
+
 func init() {
-	props["C10"] = &PropSpec{Models: []*Model{jsonModel}, Oracles: []*Oracle{jsonOracle}}
+	props["C10"] = &PropSpec{Models: []*Model{jsonModel, jsonValidModel, jsonStripModel}, Oracles: []*Oracle{jsonOracle}}
 }
